@@ -40,7 +40,10 @@ inductive W where
   | delRecord (start : Nat)
   | filterBlock (b : Nat)                           -- index block b for all registered scripts
   | updateBlockNumber (n : Nat)
-  | rollback (toNumber : Nat)                       -- the batch of rollback_to_block
+  /-- the batch of `rollback_to_block_with_filtered_number`: blocks from `toNumber` on are
+  removed, the scripts that were rolled back get the number `filtered` (the fork handling
+  passes `toNumber - 1`: the block `toNumber` itself is removed) -/
+  | rollback (toNumber filtered : Nat)
   deriving Repr, DecidableEq
 
 def insertRecord (r : Record) : List Record → List Record
@@ -58,11 +61,11 @@ def applyW (p : P) : W → P
   | .filterBlock b =>
     { p with indexed := p.indexed ++ (p.scripts.map (fun s => (s.1, b))).filter (fun e => !p.indexed.contains e) }
   | .updateBlockNumber n => { p with scripts := p.scripts.map (fun s => if s.2 < n then (s.1, n) else s) }
-  | .rollback toNumber =>
+  | .rollback toNumber filtered =>
     { p with
       indexed := p.indexed.filter (fun e =>
         !(e.2 ≥ toNumber && p.scripts.any (fun s => s.1 = e.1 && toNumber ≤ s.2))),
-      scripts := p.scripts.map (fun s => if toNumber ≤ s.2 then (s.1, toNumber) else s),
+      scripts := p.scripts.map (fun s => if toNumber ≤ s.2 then (s.1, filtered) else s),
       minF := if toNumber ≤ p.minF then toNumber - 1 else p.minF }
 
 def applyWs (p : P) (ws : List W) : P := ws.foldl applyW p
@@ -141,7 +144,7 @@ def forkWrites (p : P) (forkNumber : Nat) : List W :=
   let dropped := (p.records.filter (fun r => forkNumber < r.start)).reverse.map (fun r => W.delRecord r.start)
   let kept := p.records.filter (fun r => r.start ≤ forkNumber)
   let rb := (match kept.getLast? with | some r => r.start | none => forkNumber) + 1
-  dropped ++ [.rollback rb]
+  dropped ++ [.rollback rb (rb - 1)]
 
 /-! ### driver -/
 
